@@ -438,6 +438,52 @@ CLAIMS = {
              'the weighting propagation policy are not decided.'),
 }
 
+# additions of the evaluated tiers (DESIGN.md section 3), appended to the
+# claim texts
+EXTRA = {
+    'C01': ' The BLAS guard is also interpreted on arrays with real NumPy '
+           'dtypes (R1c); pointwise multiply / divide are evaluated on '
+           'laid-out arrays in every aliasing pattern with arbitrary old '
+           'output, where= masks treated as possibly false (R4L).',
+    'C03': ' Evaluated tier R11: about 410 operator / functional instances '
+           'on model spaces are called out of place (input untouched) and in '
+           'place on an output holding arbitrary symbols (same object, the '
+           'out-of-place values, input untouched), with views modelled.',
+    'C05': ' The evaluated tier R8 covers default, product-space, tensor '
+           '(matrix, sampling, flattening, pointwise inner) and finite-'
+           'difference operators on weighted / complex / discretized model '
+           'spaces, plus adjoint.adjoint; weighted-space defects are known '
+           'findings.',
+    'C06': ' Evaluated tier R8: derivative(x)(d) of nonlinear built-ins, '
+           'arithmetic on them and block operators equals the symbolic '
+           'differential of the evaluated A(x) on weighted model spaces.',
+    'C07': ' Evaluated tier R6: concrete proximals at designated points '
+           'satisfy the first-order optimality condition of the proximal '
+           'problem (sub-gradient intervals at kinks, normal cones for '
+           'projections).',
+    'C09': ' Evaluated tier R6: gradient(x) and derivative(x)(d) of concrete '
+           'and derived functionals equal the symbolic differential of the '
+           'evaluated value divided by the weights.',
+    'C11': ' Resumption also with in-place projections.',
+    'C12': ' R6: a point satisfying the optimality conditions (rewrite '
+           'axioms on the proximal symbols) is returned unchanged by PDHG, '
+           'Douglas-Rachford, forward-backward and proximal gradient '
+           'methods after 1-3 iterations.',
+    'C14': ' uniform_partition_fromgrid is evaluated for all 64 forms of the '
+           'limit arguments on a 2-d grid.',
+    'C15': ' The dtype rule also runs through the public factories.',
+    'C16': ' Mixed grow / shrink shapes in the n-d rule; _offset_from_spaces '
+           'evaluated on 81 two-dimensional pairs.',
+    'C17': ' Two-output ufuncs with different output dtypes and nested '
+           'power-space broadcasting of the legacy wrappers are included.',
+    'C18': ' The per-axis pre-processing factors are evaluated for every '
+           'shift pattern (R2b).',
+    'C19': ' The default surface normal is evaluated on generic tangents '
+           '(R8).',
+    'C20': ' TensorSpace._astype is evaluated over weighting kinds, '
+           'exponents and target dtypes (R7d).',
+}
+
 NOT_YET = 'check not implemented yet in this commit (DESIGN.md section 6 build order)'
 NA = {}
 
@@ -455,7 +501,8 @@ def main():
             'evidence_file': 'evidence/%s.json' % pid,
             'replay_cmd_template': './check %s --replay {path}' % pid,
             'engine': 'sa',
-            'level_claimed': {'category': c['cat'], 'text': c['text'],
+            'level_claimed': {'category': c['cat'],
+                              'text': c['text'] + EXTRA.get(pid, ''),
                               'design_ref': c['ref']},
             'level_note': c['note'],
             'technique': c['tech'],
